@@ -33,3 +33,9 @@ Definition show_res (r : res) : string :=
   end.
 Definition show_bad (l : list case) : list (N * string) :=
   map (fun c => (fst (fst c), show_res (snd (fst c)))) (filter bad l).
+
+(* generic verdict rows: (id, ok?, printable model-side value) *)
+Definition vbad_ids (l : list (N * bool * string)) : list N :=
+  map (fun c => fst (fst c)) (filter (fun c => negb (snd (fst c))) l).
+Definition vshow_bad (l : list (N * bool * string)) : list (N * string) :=
+  map (fun c => (fst (fst c), snd c)) (filter (fun c => negb (snd (fst c))) l).
